@@ -988,6 +988,7 @@ Proof.
     destruct (find_label l (db s)) as [i|] eqn:Ef.
     + destruct (nth_error (db s) i) as [x|] eqn:En; [|discriminate].
       destruct (attached x); [discriminate|]. destruct (Nat.eqb i p); [discriminate|].
+      match type of Es with (if ?c then _ else _) = _ => destruct c; [discriminate|] end.
       destruct (rej && in_flight x) eqn:Erj; [discriminate|].
       pose proof HI as [HK [HV HR]]. simpl in HK, HV.
       pose proof (Forall_nth _ _ _ _ HK En) as HKx.
@@ -1230,6 +1231,7 @@ Proof.
     destruct (find_label l (db s)) as [i|] eqn:Ef.
     + destruct (nth_error (db s) i) as [x|] eqn:En; [|discriminate].
       destruct (attached x); [discriminate|]. destruct (Nat.eqb i p); [discriminate|].
+      match type of Es with (if ?c then _ else _) = _ => destruct c; [discriminate|] end.
       destruct (rej && in_flight x); [discriminate|].
       destruct (outs_match (sig x) g).
       * unfold recycle_full in Es. destruct (lose_product (db s) x) as [d0|] eqn:El; [|discriminate].
